@@ -32,7 +32,7 @@ func c01Prop(st *CaseStats, fam int) func(t *rapid.T) {
 			t.Fatalf("case %s %s:\n  %s", sc, c.Desc, d)
 		}
 		labelsExtra := []string{}
-		if fam != FamWide && fam != FamHuge && rapid.Bool().Draw(t, "buildLater") {
+		if fam != FamWide && fam != FamHuge && fam != FamSparse && fam != FamCounts && rapid.Bool().Draw(t, "buildLater") {
 			// the segment keeps answering the same whatever is built afterwards (pooled builder state)
 			for k := rapid.IntRange(1, 2).Draw(t, "nLater"); k > 0; k-- {
 				later := GenBatch(t, sc, 5)
@@ -50,7 +50,7 @@ func c01Prop(st *CaseStats, fam int) func(t *rapid.T) {
 			labelsExtra = append(labelsExtra, "re-observed-after-later-builds")
 		}
 		nt := c.Exp.N >= 2 && (c.Labels["multi-chunk"] || c.Labels["repeated-field"] || c.Labels["term-twice-in-field"] ||
-			c.Labels["loc-other-field"] || c.Labels["empty-term"] || c.Labels["binary-term"] || c.Labels["term>=1024-hits"])
+			c.Labels["loc-other-field"] || c.Labels["empty-term"] || c.Labels["binary-term"] || c.Labels["term>=1024-hits"] || fam == FamCounts)
 		st.Record(sc.String()+" "+c.Desc, nt, append(c.LabelList(), labelsExtra...)...)
 	}
 }
@@ -118,4 +118,16 @@ func TestC01Terms(t *testing.T) {
 	st := NewStats("C01Terms", c01Rule)
 	defer st.Flush()
 	rapid.Check(t, c01Prop(st, FamTerms))
+}
+
+func TestC01Sparse(t *testing.T) {
+	st := NewStats("C01Sparse", c01Rule)
+	defer st.Flush()
+	rapid.Check(t, c01Prop(st, FamSparse))
+}
+
+func TestC01Counts(t *testing.T) {
+	st := NewStats("C01Counts", c01Rule)
+	defer st.Flush()
+	rapid.Check(t, c01Prop(st, FamCounts))
 }
